@@ -132,10 +132,20 @@ def search_failing(case, rep, oracles, rng):
         c_log.y = np.where(case.y > med, 1.0, -1.0)
         c_log.sw = np.ones(len(case.y))
         bases.append(c_log)
-    for base, max_iter in [(b_, m) for b_ in bases for m in (case.knobs.get("max_iter", 5), 20, 50, 100)]:
+    # strong regularisation (null solution: every outer iteration is a single intercept step), full working set
+    for b_ in list(bases):
+        if getattr(b_.pen, "alpha", None) and b_.pen.kind not in ("box",):
+            c_big = copy.copy(b_)
+            c_big.pen = copy.copy(b_.pen)
+            c_big.pen.alpha = 20.0 * b_.pen.alpha
+            bases.append(c_big)
+    p_feat = case.X.shape[1]
+    for base, max_iter in [(b_, m) for b_ in bases for m in (case.knobs.get("max_iter", 5), 1, 2, 3, 20, 100)]:
         for tol in (case.knobs.get("tol", 1e-4), 1e-1, 1e-2, 1e-3, 1e-6):
             c2 = copy.copy(base)
             c2.knobs = dict(case.knobs, max_iter=max_iter, tol=tol)
+            if max_iter in (1, 2, 3):
+                c2.knobs["p0"] = max(10, p_feat)
             c2.explicit_buffers = True
             r2 = solvers.run_acd(c2)
             tried += 1
@@ -271,12 +281,21 @@ def _bb_worker(args):
             # the same degenerate problem in the other storage layouts: dense, CSC with structurally empty null
             # columns, CSC with the null columns stored as explicit zeros (what `X[:, j] = 0` leaves behind)
             import copy
-            for layout in ("dense", "csc-empty", "csc-explicit"):
+            for layout in ("dense", "csc-empty", "csc-explicit", "dense-fixpoint-generous"):
                 c2 = copy.copy(case)
                 c2.knobs = dict(case.knobs)
                 if "p0" in c2.knobs:
                     c2.knobs["p0"] = 10            # the null column sits in the first working set
-                c2.sparse = layout != "dense"
+                c2.sparse = layout not in ("dense", "dense-fixpoint-generous")
+                if layout == "dense-fixpoint-generous":
+                    # the other working-set strategy with a budget that lets a convex problem converge: the null
+                    # block must neither block convergence nor fake it
+                    if "ws_strategy" not in c2.knobs or case.pen.kind == "wl1gl2":
+                        continue
+                    c2.knobs.update(ws_strategy="fixpoint", max_iter=100, tol=1e-8)
+                    for k_ in ("max_epochs", "max_pn_iter"):
+                        if k_ in c2.knobs:
+                            c2.knobs[k_] = 1000
                 c2.explicit_zeros = -1 - rng.randrange(1 << 20) if layout == "csc-explicit" else None
                 if c2.sparse and (solver == "ProxNewton" and case.df.kind == "wquadratic"):
                     continue
